@@ -164,7 +164,7 @@ def replay(case):
 
 def _strategy():
     return lifecycle_cases(statuses_full=True, respawn_false=True,
-                           kill_cmd=True)
+                           kill_cmd=True, set_other=True)
 
 
 def plan(tier, seed):
